@@ -1,6 +1,7 @@
 package props
 
 import (
+	"time"
 	"errors"
 	"fmt"
 	"sort"
@@ -95,6 +96,7 @@ type implOutcome struct {
 
 type evalRig struct {
 	ntTraceOnly bool
+	farDeadline bool // evaluate under a context whose deadline is an hour away (nothing times out)
 	base   types.EnvType
 	tracer *lx.Tracer
 	mbase  *model.Scope
@@ -118,6 +120,9 @@ func (rg *evalRig) runImpl(ast types.MalType, polls int) (out implOutcome, scope
 	rg.tracer.Reset()
 	scope = env.NewSubordinateEnv(rg.base)
 	ctx := vclock.NewPollCtx(polls)
+	if rg.farDeadline {
+		ctx = ctx.WithDeadline(time.Now().Add(time.Hour))
+	}
 	res, err, p := lx.Eval(ctx, ast, scope)
 	out.Trace = make([]V, len(rg.tracer.Log))
 	for i, t := range rg.tracer.Log {
